@@ -44,7 +44,7 @@ ASSUMPTIONS = ["gzip/zlib/brotli/zstd library decoders called directly are the r
 LEVEL_TEXT = ("randomised histories against reference decoders and a fresh-cache twin; finds history dependence only "
               "for cache states reachable within 16 steps over <=4 bodies")
 LEVEL_NOTE = "trusts the compression libraries' own decoders as reference"
-QUICK_N, THOROUGH_N = 48_000, 2_000_000
+QUICK_N, THOROUGH_N = 80_000, 2_000_000
 
 SUPPORTED = ("gzip", "deflate", "br", "zstd")
 CODINGS = ["gzip", "deflate", "br", "zstd", "identity", "GZip", "BR", "Zstd", "DEFLATE", "Identity", "none",
@@ -394,7 +394,7 @@ def check_case(case, ctx):
             kind = {"gzip": "gzip", "deflate": "zlib", "br": "br", "zstd": "zstd"}[sup]
             fields, raw = ((b"Content-Encoding", sup.encode()),), ref_encode(kind, b, x // 32)
         msgs.append(_mkmsg(bool(case["kinds"] >> i & 1), fields, raw))
-    ops = decode_ops(case["prog"])
+    ops = case.get("ops") or decode_ops(case["prog"])   # hand-written witnesses give "ops" explicitly
     encoding._cache = EMPTY
     shape = []
     hits = 0
